@@ -377,7 +377,7 @@ SUBCHECKS = [
     Sub('triples', gen_triples, ev_triples, chunk=64, floor=300, guard=True, envs=4),
     Sub('iers', gen_iers, ev_iers, chunk=500, floor=100, parallel=False, guard=True),
     Sub('algebra', gen_algebra, ev_algebra, chunk=4, floor=90, guard=True, envs=2),
-    Sub('threads', _tg, _te, chunk=1, floor=3, poison=False, fresh=True, timeout=3600),
+    Sub('threads', _tg, _te, chunk=1, floor=3, poison=False, fresh=True, timeout=7200),
     Sub('callforms', *_cf.make('C11', 'constants'), chunk=1, floor=1, guard=True),
     Sub('interpreter', *_ip.make('C11', 'constants'), chunk=1, floor=5, poison=False),
 ]
